@@ -110,6 +110,19 @@ func (f *frame) call(res ssa.Value, c *ssa.CallCommon, ins ssa.Instruction) {
 		setRes(f.callFunc(fn, args, binds, c, pos))
 		return
 	}
+	// call of a function-typed parameter that has a callback contract
+	if p, ok := c.Value.(*ssa.Parameter); ok && p.Parent() != nil && p.Parent().Pkg != nil {
+		key := p.Parent().Pkg.Pkg.Path() + "::callback:" + funcKey(p.Parent()) + "." + p.Name()
+		if ct := vc.eng.cs.Contracts[key]; ct != nil {
+			ct.used = true
+			var args []Val
+			for _, a := range c.Args {
+				args = append(args, f.val(a))
+			}
+			setRes(f.applyCallback(ct, p, c, args, pos))
+			return
+		}
+	}
 	// dynamic call through a function value
 	fv := f.val(c.Value)
 	if ci := vc.closures[fv.t]; ci != nil {
@@ -149,6 +162,27 @@ func (f *frame) callFunc(fn *ssa.Function, args []Val, binds []Val, c *ssa.CallC
 	hasBody := len(fn.Blocks) > 0 && (eng.inModule(fn) || fn.Synthetic != "")
 	useContract := ct != nil && !ct.Inline && (len(ct.Ensures) > 0 || len(ct.Requires) > 0 || ct.HasMod || ct.Opaque || ct.Trusted || !hasBody)
 	if useContract {
+		// function-typed arguments may be called by the callee: their write effects join the call's frame
+		f.extraEff = nil
+		if c != nil {
+			for _, a := range c.Args {
+				if _, isFn := a.Type().Underlying().(*types.Signature); !isFn {
+					continue
+				}
+				if f.extraEff == nil {
+					f.extraEff = map[string]bool{}
+				}
+				if cl := closureOf(a); cl != nil {
+					for h := range eng.effects(cl) {
+						f.extraEff[h] = true
+					}
+				} else if cst, isC := a.(*ssa.Const); isC && cst.Value == nil {
+					// nil function
+				} else {
+					f.extraEff["*"] = true
+				}
+			}
+		}
 		return f.applyContract(ct, fn, fn.Signature, args, pos, funcDisplay(fn))
 	}
 	if hasBody && !(ct != nil && ct.NoInline) {
@@ -235,6 +269,10 @@ func (f *frame) applyContract(ct *Contract, fn *ssa.Function, sig *types.Signatu
 	}
 	// frame
 	eff := eng.contractEffects(ct, fn, sig)
+	if len(f.extraEff) > 0 {
+		eff = union(eff, f.extraEff)
+		f.extraEff = nil
+	}
 	f.havocTo(pre, eff)
 	post := f.st
 	f.frameFormulas(ct, env, pre, post, eff)
@@ -781,4 +819,47 @@ func (f *frame) copyStructRangeCond(et types.Type, inPlace, resArr, resOff, s, t
 		}
 	}
 	walk(et, func(r string) string { return r })
+}
+
+// applyCallback: a call of a function-typed parameter under its callback contract. The clauses may mention the
+// callback's arguments (declared names), the enclosing function's parameters and its source-level locals.
+func (f *frame) applyCallback(ct *Contract, p *ssa.Parameter, c *ssa.CallCommon, args []Val, pos token.Pos) []Val {
+	vc := f.vc
+	sig := c.Signature()
+	pre := f.st
+	env := f.specEnv(pre)
+	env.old = pre
+	env.atBlock = f.cur
+	env.where = "callback " + ct.Key
+	for i := 0; i < sig.Params().Len() && i < len(args); i++ {
+		name := sig.Params().At(i).Name()
+		if i < len(ct.ParamNames) {
+			name = ct.ParamNames[i]
+		}
+		if name != "" && name != "_" {
+			env.vars[name] = specVal{term: args[i].t, typ: sig.Params().At(i).Type()}
+		}
+	}
+	short := ct.Key
+	for _, cl := range ct.Requires {
+		f.oblige("pre", "callback."+short+"."+cl.Label, cl.Props, env.trBool(cl.Expr), pos)
+	}
+	eff := vc.eng.callbackEffects(ct, p)
+	f.havocTo(pre, eff)
+	post := f.st
+	if ct.HasMod && !eff["*"] {
+		for _, fm := range f.frameCondsItems(ct.Modifies, env, pre, post, eff) {
+			f.assume(fm.formula)
+		}
+	}
+	results := f.freshResults(sig, "r.cb")
+	penv := env.clone()
+	penv.st = post
+	penv.old = pre
+	bindResults(penv, sig, results)
+	for _, cl := range ct.Ensures {
+		f.assume(penv.trBool(cl.Expr))
+	}
+	vc.assumed["callback contract "+short+" (assumed of every function passed for this parameter)"] = true
+	return results
 }
